@@ -156,6 +156,22 @@ NEEDS7 = {
  "C17_a": "SincFixedOut::set_resample_ratio accepts a ratio above original*max when it equals the limit after T::coerce: f32 accepts what f64 rejects within half an f32 ulp above the upper limit (absolute setter)",
  "C17_b": "SSE f32 kernel with four accumulators and 16 taps per iteration, no tail: last 8 taps dropped when sinc_len is 8 x odd; needs the SSE kernel to be dispatched (no AVX+FMA)",
 }
+NEEDS8 = {
+ "C03_a": "SincFixedOut stores the per-frame ramp step in set_resample_ratio and set_chunk_size does not refresh it: set_chunk_size(16), ramped ratio change, set_chunk_size(1024), process -> position overshoots, interpolator assert",
+ "C03_b": "FastFixedIn loop end margin from the ceiling of the start step only: a ramp to a much lower ratio in a strongly downsampling configuration (ratio 0.05, max 10, ramp to 0.1x) -> get_unchecked past the buffer",
+ "C04_a": "SincFixedIn::output_frames_max shortcut ceil(chunk*ratio)+1 for max_relative == 1.0: ratio a power of two >= 1 and one chunk processed",
+ "C04_b": "SincFixedOut::input_frames_max as ceil(chunk/(orig/max)) + len/2 without the +2 slack: fresh/reset state, ratio set to the exact minimum without ramp, chunk*max/orig integral and a rounding one ulp high (48000->44100, max 2, chunk 441)",
+ "C05_a": "SincFixedOut::reset calls update_needed_len before restoring chunk_size: set_chunk_size(c < max), reset, process",
+ "C05_b": "FastFixedOut ramp advance simplified to N*(t0+t1)/2: (t1-t0)/2 input frames short; only a ramp towards a much lower ratio whose step grows by more than ~7 frames in one call",
+ "C06_a": "SincFixedOut::set_chunk_size uses the plain chunk/ratio formula instead of update_needed_len: ramped set_resample_ratio, then set_chunk_size, then process",
+ "C06_b": "FastFixedIn moves the ramp locals and resample_ratio = target_ratio above validate_buffers: a rejected call right after a ramped set consumes the ramp",
+ "C10_a": "FftFixedOut::reset no longer zeroes output_buffers: a channel with audio before reset masked on the first calls afterwards (saved_frames > 0), then unmasked",
+ "C10_b": "SincFixedOut::reset zeroes only 2*sinc_len + current_buffer_fill samples: low-ratio call, raised ratio + call, reset, ratio lowered again with a call that masks the channel, then the channel active",
+ "C11_a": "FftFixedOut::reset zeroes only channels true in the stored mask, and the mask is stored before validation: a rejected call whose mask excludes a channel with data, reset without a successful call in between, then that channel",
+ "C11_b": "SincFixedIn computes the frame count in closed form for an all-false mask at constant ratio: differs from the stepping loop where accumulated rounding straddles the end index (48000/44100, chunk 1024, call 51)",
+ "C16_a": "FastFixedIn::output_frames_next recomputed as (distance*ratio_max) as usize + 2 while process_into_buffer validates against the dividing formula: first call after new/reset with ratio p/q and chunk-6 a multiple of q (13/3, chunk 237) -> process() allocates one frame too few",
+ "C16_b": "process_partial_into_buffer returns Ok((0,0)) early when input_frames_next() == 0 and the input is None: FftFixedOut with the output block larger than the chunk still owes saved frames",
+}
 ROUND = int(os.environ.get('SEEDED_ROUND', '1'))
 if ROUND == 2:
     NEEDS = NEEDS2
@@ -169,9 +185,11 @@ if ROUND == 6:
     NEEDS = NEEDS6
 if ROUND == 7:
     NEEDS = NEEDS7
-SRC_ROOT = {1: '/tmp/seeded-out', 2: '/tmp/seeded2-out', 3: '/tmp/seeded3-out', 4: '/tmp/seeded4-out', 5: '/tmp/seeded5-out', 6: '/tmp/seeded6-out', 7: '/tmp/seeded7-out'}[ROUND]
-LOGS = {1: ['/tmp/seeded-results.log'], 2: ['/tmp/seeded2-baseline.log', '/tmp/seeded2-new.log', '/tmp/seeded2-final.log', '/tmp/seeded2-thorough.log'], 3: ['/tmp/seeded3-new.log', '/tmp/seeded3-thorough.log', '/tmp/seeded3-final.log', '/tmp/seeded3-final2.log'], 4: ['/tmp/seeded4-new.log', '/tmp/seeded4-thorough.log', '/tmp/seeded4-final.log', '/tmp/seeded4-confirm.log'], 5: ['/tmp/seeded5-new.log', '/tmp/seeded5-final.log', '/tmp/seeded5-thorough.log'], 6: ['/tmp/seeded6-new.log', '/tmp/seeded6-final.log', '/tmp/seeded6-thorough.log'], 7: ['/tmp/seeded7-new.log', '/tmp/seeded7-final.log', '/tmp/seeded7-thorough.log']}[ROUND]
-PREFIX = {1: '', 2: 'R2_', 3: 'R3_', 4: 'R4_', 5: 'R5_', 6: 'R6_', 7: 'R7_'}[ROUND]
+if ROUND == 8:
+    NEEDS = NEEDS8
+SRC_ROOT = {1: '/tmp/seeded-out', 2: '/tmp/seeded2-out', 3: '/tmp/seeded3-out', 4: '/tmp/seeded4-out', 5: '/tmp/seeded5-out', 6: '/tmp/seeded6-out', 7: '/tmp/seeded7-out', 8: '/tmp/seeded8-out'}[ROUND]
+LOGS = {1: ['/tmp/seeded-results.log'], 2: ['/tmp/seeded2-baseline.log', '/tmp/seeded2-new.log', '/tmp/seeded2-final.log', '/tmp/seeded2-thorough.log'], 3: ['/tmp/seeded3-new.log', '/tmp/seeded3-thorough.log', '/tmp/seeded3-final.log', '/tmp/seeded3-final2.log'], 4: ['/tmp/seeded4-new.log', '/tmp/seeded4-thorough.log', '/tmp/seeded4-final.log', '/tmp/seeded4-confirm.log'], 5: ['/tmp/seeded5-new.log', '/tmp/seeded5-final.log', '/tmp/seeded5-thorough.log'], 6: ['/tmp/seeded6-new.log', '/tmp/seeded6-final.log', '/tmp/seeded6-thorough.log'], 7: ['/tmp/seeded7-new.log', '/tmp/seeded7-final.log', '/tmp/seeded7-thorough.log'], 8: ['/tmp/seeded8-new.log', '/tmp/seeded8-final.log', '/tmp/seeded8-thorough.log']}[ROUND]
+PREFIX = {1: '', 2: 'R2_', 3: 'R3_', 4: 'R4_', 5: 'R5_', 6: 'R6_', 7: 'R7_', 8: 'R8_'}[ROUND]
 res = {}
 cur = None
 import itertools
@@ -230,8 +248,8 @@ for key in sorted(NEEDS):
     json.dump(meta, open(f"{dst}/meta.json", "w"), indent=1)
     clause = re.search(r'clause=([\w<>=!\-]+)', final.get('detail', ''))
     tally.append((meta['caught_by_quick_check'], meta['caught_by_thorough_check'], bool(meta['caught_by_other_property_check']), any(r['verdict'] == 'NOT-APPLICABLE' for r in runs[-1:])))
-    rows.append((PREFIX + key, p, ' / '.join(f"{r.get('stage','').replace('seeded2-','').replace('seeded3-','').replace('seeded4-','').replace('seeded5-','').replace('seeded6-','').replace('seeded7-','').replace('seeded-results','run')}{'' if r['property'] == p else '(' + r['property'] + ')'}:{r['verdict']}" for r in runs) or 'NOT-RUN', clause.group(1) if clause else '', len(runs), NEEDS[key]))
-with open({1: '/verif/seeded/RESULTS.md', 2: '/verif/seeded/RESULTS_round2.md', 3: '/verif/seeded/RESULTS_round3.md', 4: '/verif/seeded/RESULTS_round4.md', 5: '/verif/seeded/RESULTS_round5.md', 6: '/verif/seeded/RESULTS_round6.md', 7: '/verif/seeded/RESULTS_round7.md'}[ROUND], 'w') as f:
+    rows.append((PREFIX + key, p, ' / '.join(f"{r.get('stage','').replace('seeded2-','').replace('seeded3-','').replace('seeded4-','').replace('seeded5-','').replace('seeded6-','').replace('seeded7-','').replace('seeded8-','').replace('seeded-results','run')}{'' if r['property'] == p else '(' + r['property'] + ')'}:{r['verdict']}" for r in runs) or 'NOT-RUN', clause.group(1) if clause else '', len(runs), NEEDS[key]))
+with open({1: '/verif/seeded/RESULTS.md', 2: '/verif/seeded/RESULTS_round2.md', 3: '/verif/seeded/RESULTS_round3.md', 4: '/verif/seeded/RESULTS_round4.md', 5: '/verif/seeded/RESULTS_round5.md', 6: '/verif/seeded/RESULTS_round6.md', 7: '/verif/seeded/RESULTS_round7.md', 8: '/verif/seeded/RESULTS_round8.md'}[ROUND], 'w') as f:
     f.write("# Independent seeded changes (one sub-agent per property, two variants each)\n\n")
     f.write("Each change compiles, passes the 96 existing tests, and has a demonstration that fails with it and passes without it (confirmed in a scratch worktree). `check runs` counts how often the target check was run against it (a second run follows a strengthening of the check, see DESIGN.md section 13).\n\n")
     f.write("| id | property | quick check verdict | first clause | check runs | needs |\n|---|---|---|---|---|---|\n")
